@@ -70,6 +70,35 @@ def install_kernel_abstraction(I, ctx):
         return record(args_of(args[0], args[1]))[1]
     ctx.stubs["is_passed"] = is_passed
     ctx.stubs["is_rejected"] = is_rejected
+    ctx.model_refiners = [kernel_reference]
+
+
+def _vn(cs, w, p, tag):
+    """votes_needed(w, p) as the library computes it: ceil(floor(1e9*w*p / 1e18) / 1e9)"""
+    q1, r1, q2, r2 = [z3.Int(f"ref.{tag}.{k}") for k in ("q1", "r1", "q2", "r2")]
+    cs += [q1 >= 0, r1 >= 0, r1 < E18, E9 * w * p == q1 * E18 + r1, q2 >= 0, r2 >= 0, r2 < E9, q1 + E9 - 1 == q2 * E9 + r2]
+    return q2
+
+
+def kernel_reference(ctx):
+    """reference definition of the abstracted kernel calls of this path (used only to pick a replayable counterexample)"""
+    cs = []
+    for i, a in enumerate(ctx.kernel_calls):
+        yes, no, ab, veto, total, kind, ta, tb, e = a
+        voted = yes + no + ab + veto
+        if kind == 0:
+            passed = yes >= ta
+            rej = no > total - ta
+        elif kind == 1:
+            passed = yes >= _vn(cs, total - ab, ta, f"{i}.p")
+            rej = no > _vn(cs, total - ab, E18 - ta, f"{i}.r")
+        else:
+            opin = z3.If(e, voted - ab, total - ab)
+            passed = z3.And(voted >= _vn(cs, total, tb, f"{i}.q"), yes >= _vn(cs, opin, ta, f"{i}.p"))
+            rej = no > _vn(cs, opin, E18 - ta, f"{i}.r")
+        cs.append(PASS_UF(*a) == z3.And(yes > 0, passed))
+        cs.append(REJ_UF(*a) == rej)
+    return cs
 
 
 def kernel(I, ctx, name, prop, blk):
@@ -95,6 +124,7 @@ class GroupEnv:
         ctx.assume(self.total_now == zsum([zite(p, w, 0) for p, w in self.now.values()]))
         self.hist = {}
         self.queries = []
+        self.smart = []           # (addr value, height term | None, present, weight) of every smart Member query on the path
 
     def at(self, ctx, a, h):
         key = (a.idx, str(h))
@@ -135,11 +165,27 @@ class GroupEnv:
             h = I.force(ctx, m.get("at_height"))
             if a is None: return Ok(Struct("MemberResponse", [NONE], ["weight"]))
             p, w = self.now[a] if h.variant == "None" else self.at(ctx, a, h.fields[0])
+            self.smart.append((m.get("addr"), None if h.variant == "None" else h.fields[0], p, w))
             res = Some(w) if ctx.branch(p, f"group member?") else NONE
             return Ok(Struct("MemberResponse", [res], ["weight"]))
         if m.variant == "ListMembers":
             return self.list_members(I, ctx, m)
         raise Unsupported(f"group smart query {m.variant}")
+
+    def to_request(self, conc):
+        """querier table of the native replay: the group's raw cells (current state) and the smart answers given on this path"""
+        from mirsym import serial
+        import json
+        g = conc.string(self.group_addr)
+        raw = [{"contract": g, "key": serial.item_key("total").hex(), "value": json.dumps(conc.ev(self.total_now)).encode().hex()}]
+        for a, (p, w) in self.now.items():
+            if conc.ev(p):
+                raw.append({"contract": g, "key": serial.map_key("members", [conc.string(a)]).hex(), "value": json.dumps(conc.ev(w)).encode().hex()})
+        smart = []
+        for addr, h, p, w in self.smart:
+            msg = {"member": {"addr": conc.string(addr), "at_height": None if h is None else conc.ev(h)}}
+            smart.append({"contract": g, "msg": msg, "response": {"weight": conc.ev(w) if conc.ev(p) else None}})
+        return {"raw": raw, "smart": smart}
 
     def list_members(self, I, ctx, m):
         raise Unsupported("ListMembers environment model is provided by the listing spec")
@@ -264,8 +310,13 @@ def ms_step(I, ctx, ob, crate, variant, statuses=("Open", "Rejected", "Passed", 
         if not f.on_focus: ctx.assume(m.get("proposal_id") != oid)       # the second proposal is a pure bystander
     if variant == "Propose":
         ctx.bounds["vec"] = 1
+        if crate == FLEX:
+            f.info = f.info.with_("funds", SymVec(ctx.fresh_id(), "Coin", "funds", 2, 0, crate))
+            # instantiate's into_checked never stores a zero deposit
+            dep = I.force(ctx, cfg.get("proposal_deposit"))
+            if dep.variant == "Some": ctx.assume(dep.fields[0].get("amount") > 0)
     f.outcome, f.resp, f.pre = call_entry(I, ctx, ob, crate, "execute", "execute", [make_deps(), f.env, f.info, m], f.env, f.info, m, "msg::ExecuteMsg", crate,
-                                          querier=None)
+                                          querier=(f.genv.to_request if crate == FLEX else None))
     f.post = ctx.storage
     f.blk = blk
     return f
